@@ -301,6 +301,15 @@ theorem check_sound_F1_hist_partial {Γ : Ctx} (hist : List (Method × List Int)
     (hall : ∀ c ∈ hist, MethodOk Γ c.1 ∧ argsNat c.1.params c.2) : HistSafe Γ o hist :=
   hist_sound hist o he hall
 
+/-- … in particular from the freshly initialised (all-zero) object, when zero is a value
+of every declared type (which `checkFields` and `bcheckVar` enforce: "default zero value
+is not within bounds") -/
+theorem check_sound_F1_fresh_partial {Γ : Ctx} (hz : ∀ n, inType (Γ n) 0)
+    (hist : List (Method × List Int))
+    (hall : ∀ c ∈ hist, MethodOk Γ c.1 ∧ argsNat c.1.params c.2) :
+    HistSafe Γ ⟨fun _ => 0, false⟩ hist :=
+  hist_sound_fresh hz hist hall
+
 /-- non-vacuity: the method `m(a: base.u32[..= 6]) { x = args.a; x += 1 }` with
 `x : base.u32[..= 7]` is an accepted method; so the theorem applies to every history
 of calls `m(v)`, `v` any 32-bit value -/
